@@ -748,6 +748,101 @@ def eval_char_pred(g, ch, fuel=400):
     raise mir.AnchorMissing(f"{g.path}: evaluation did not terminate")
 
 
+class Frame:
+    """A function of the CLI crate being looked at; `call`/`parent` say how a bool helper was entered."""
+
+    def __init__(self, f, call=None, parent=None):
+        self.f, self.call, self.parent = f, call, parent
+
+    def root(self):
+        return self if self.parent is None else self.parent.root()
+
+
+def xtrace(fr, op):
+    """chain() continued through helper parameters into the callers' frames.
+    Returns ([(fn, Call)...], operand in the root frame through which the chain entered it (or op itself))."""
+    calls = []
+    top = op
+    while True:
+        cs, fin = chain(fr.f, op)
+        calls += [(fr.f, x) for x, _ in cs]
+        if fin[0] == "arg" and not fin[2] and fr.parent is not None and fin[1] - 1 < len(fr.call.args):
+            op = fr.call.args[fin[1] - 1]
+            fr = fr.parent
+            if fr.parent is None:
+                top = op
+            continue
+        return calls, (top if fr.parent is None else None)
+
+
+def conds_at(B, fr, site, depth=6):
+    """Conditions under which `site` executes: dominating guard edges, where an edge on a bool local with several
+    constant / copied definitions (`match` or `&&` yielding a bool) or on the result of a bool helper of the CLI crate
+    is replaced by the conditions under which that value has the tested polarity.  List of (Frame, sw, vals, origin)."""
+    out = []
+    for sw, vals, o in fr.f.guard_edges(site):
+        out += expand_cond(B, fr, sw, vals, o, depth)
+    return out
+
+
+def expand_cond(B, fr, sw, vals, o, depth):
+    base = [(fr, sw, vals, o)]
+    o2, neg = strip_not(o)
+    pol = edge_polarity(vals, neg)
+    if pol is None or depth <= 0:
+        return base
+    f = fr.f
+    if o2.get("kind") == "call" and not fields_of(o2):
+        gs = [g for n in o2["call"].names() for g in B.by_name.get(mir.norm(n), [])]
+        if len(gs) == 1 and gs[0].locals[0] == "bool" and gs[0].d.get("trait") is None:
+            r = value_conds(B, Frame(gs[0], o2["call"], fr), 0, pol, depth - 1)
+            return base if r is None else r
+    if o2.get("kind") == "place" and not fields_of(o2) and o2.get("local") is not None and \
+            f.locals[o2["local"]] == "bool" and "*" not in o2.get("proj", []):
+        r = value_conds(B, fr, o2["local"], pol, depth - 1)
+        return base if r is None else r
+    return base
+
+
+def value_conds(B, fr, local, pol, depth):
+    """Conditions implied by `local == pol`: those of the definition(s) able to store `pol`; None when not analysable."""
+    f = fr.f
+    cands = []
+    for b, i, kind, payload in f.defs.get(local, []):
+        if b not in f.live:
+            continue
+        if kind == "call":
+            cands.append((b, {"kind": "call", "call": mir.Call(b, payload), "proj": []}))
+        elif kind == "assign":
+            rv = payload
+            if rv["k"] == "use" and "c" in rv["o"]:
+                if "v" not in rv["o"]:
+                    return None
+                if bool(int(rv["o"]["v"])) == pol:
+                    cands.append((b, None))
+            elif rv["k"] == "use":
+                cands.append((b, f.origin(rv["o"])))
+            elif rv["k"] == "un" and rv["op"] == "Not":
+                cands.append((b, {"kind": "un", "op": "Not", "a": f.origin(rv["a"])}))
+            else:
+                return None
+        else:
+            return None
+    if not cands:
+        return None
+    sets = []
+    for b, o in cands:
+        cs = conds_at(B, fr, b, depth)
+        if o is not None:
+            cs = cs + expand_cond(B, fr, b, ["else"] if pol else [0], o, depth)
+        sets.append(cs)
+    if len(sets) == 1:
+        return sets[0]
+    keys = [set((c[0].f.path, c[1], tuple(map(str, c[2]))) for c in cs) for cs in sets]
+    common = set.intersection(*keys)
+    return [c for c in sets[0] if (c[0].f.path, c[1], tuple(map(str, c[2]))) in common]
+
+
 # representative characters of a valid UTF-8 *text* file: each must pass whatever text-ness test guards the message
 TEXT_EOL = [("\r", "CR"), ("\n", "LF"), ("\t", "TAB")]
 TEXT_ASCII = [(ch, repr(ch)) for ch in " aZq07.,;:!?'\"`-_/\\|@#$%^&*+=~()[]{}<>"]
@@ -770,19 +865,21 @@ def text_reaches_message_rule(rep, B, f, ctx, blocks):
         after_cmp |= f.reachable(d)
     seen = set()
     ntests = 0
+    root = Frame(f)
     for b in blocks:
-        for gsw, vals, o in f.guard_edges(b):
-            if gsw in seen or gsw not in after_cmp:
+        for cfr, gsw, vals, o in conds_at(B, root, b):
+            cf = cfr.f
+            if (cf.path, gsw) in seen or (cfr.parent is None and gsw not in after_cmp):
                 continue
-            seen.add(gsw)
+            seen.add((cf.path, gsw))
             if o.get("kind") == "discr":
                 of = o.get("of", {})
                 names = {o["vars"].get(v) for v in vals if v != "else"} | \
-                    ({n for v, n in o["vars"].items() if v not in f.switch_targets(gsw)} if "else" in vals else set())
+                    ({n for v, n in o["vars"].items() if v not in cf.switch_targets(gsw)} if "else" in vals else set())
                 ok = of.get("kind") == "call" and of["call"].matches("str::from_utf8") and names == {"Ok"}
                 rep.ob("R33.4", f"{fn}: conditions before the line-ending message hold for every UTF-8 text file "
                                 f"(enum test is `from_utf8(..)` = Ok)", ok,
-                       f"the message additionally requires {o.get('ty')} to be {sorted(map(str, names))}", f.loc(gsw))
+                       f"the message additionally requires {o.get('ty')} to be {sorted(map(str, names))}", cf.loc(gsw))
                 continue
             o, n2 = strip_not(o)
             pol = edge_polarity(vals, n2)
@@ -796,7 +893,7 @@ def text_reaches_message_rule(rep, B, f, ctx, blocks):
                 rep.ob("R33.4", f"{fn}: conditions before the line-ending message hold for every UTF-8 text file "
                                 f"(only from_utf8 / chars().any / chars().all / lines().eq are understood)", False,
                        f"unrecognised condition on `{what}`: cannot establish that a text file with CRLF line endings "
-                       f"reaches the message", f.loc(gsw))
+                       f"reaches the message", cf.loc(gsw))
                 continue
             ntests += 1
             ac = o["call"]
@@ -805,17 +902,18 @@ def text_reaches_message_rule(rep, B, f, ctx, blocks):
             rep.ob("R33.4", f"{fn}: the per-character text test is required with the outcome a text file produces "
                             f"(`any` = false or `all` = true)", pol is want_edge,
                    f"the message requires chars().{adaptor}(..) = {str(pol).lower()}: only files that contain a rejected "
-                   f"character (or none at all) can reach it", f.loc(gsw))
-            src = [x for x, _ in chain(f, ac.args[0])[0]]
+                   f"character (or none at all) can reach it", cf.loc(gsw))
+            src, top = xtrace(cfr, ac.args[0])
             rep.ob("R33.4", f"{fn}: the per-character text test scans the chars of the file read (or of the generated text)",
-                   any(x.matches(STR_CHARS) for x in src) and
-                   (any(x.bb == r.bb for x in src for r in ctx.reads) or ctx.view_contents(ac.args[0])), "", f.loc(ac.bb))
-            po = f.origin(ac.args[1]) if len(ac.args) > 1 else {}
+                   any(x.matches(STR_CHARS) for _, x in src) and
+                   (any(g_ is f and x.bb == r.bb for g_, x in src for r in ctx.reads) or
+                    (top is not None and ctx.view_contents(top))), "", cf.loc(ac.bb))
+            po = cf.origin(ac.args[1]) if len(ac.args) > 1 else {}
             name = po.get("rv", {}).get("closure") if po.get("kind") == "agg" else po.get("fn")
             preds = B.by_name.get(mir.norm(name), []) if name else []
             if len(preds) != 1:
                 rep.ob("R33.4", f"{fn}: the per-character predicate is a closure / fn of the CLI crate", False,
-                       f"{name}", f.loc(ac.bb))
+                       f"{name}", cf.loc(ac.bb))
                 continue
             g = preds[0]
             rep.saw(g)
@@ -872,16 +970,16 @@ def crlf_rule(rep, B, ctxs):
             for b in blocks:
                 good = False
                 why = "no dominating `Iterator::eq` true edge"
-                for gsw, vals, o in f.guard_edges(b):
+                for cfr, gsw, vals, o in conds_at(B, Frame(f), b):
                     o, n2 = strip_not(o)
                     if o.get("kind") != "call" or not o["call"].matches("Iterator::eq") or edge_polarity(vals, n2) is not True:
                         continue
                     sides = []
                     for a in o["call"].args[:2]:
-                        calls = [x for x, _ in chain(f, a)[0]]
-                        is_lines = bool(calls) and calls[0].matches(STR_LINES)
-                        from_read = any(x.bb == r.bb for x in calls for r in ctx.reads)
-                        from_contents = not from_read and ctx.view_contents(a)
+                        calls, top = xtrace(cfr, a)
+                        is_lines = bool(calls) and calls[0][1].matches(STR_LINES)
+                        from_read = any(g_ is f and x.bb == r.bb for g_, x in calls for r in ctx.reads)
+                        from_contents = not from_read and top is not None and ctx.view_contents(top)
                         sides.append((is_lines, from_read, from_contents))
                     if len(sides) == 2 and all(s[0] for s in sides) and \
                             ((sides[0][1] and sides[1][2]) or (sides[1][1] and sides[0][2])):
